@@ -117,6 +117,10 @@ def cases(seed, tier):
                 out.append({"group": "late", "kind": "late_backward", "functional": fname, "rep": "rebind_" + holder, "holder": holder,
                             "d": rng.choice([2, 3, 7]), "s": 0.4, "seed": sub_seed(seed, "c04ls", kl)})
                 kl += 1
+    # the monitors of C09 on the optimiser functionals: special representations (tied / duplicated / aliased tensors, infinite entries in object
+    # tensors, a class that is both nn.Module and EditableModule) and a failing call followed by a normal one
+    from vf import c09_extra as _c9x
+    out.extend(_c9x.delegated_cases(seed, tier, ("rootfinder", "equilibrium", "minimize"), "c04d"))
     # observation only: complex non-holomorphic function (the statement's formula does not cover it; reported as a counter)
     NO = 12 if tier == "quick" else 60
     for i in range(NO):
@@ -206,6 +210,9 @@ def run_case(desc):
     if desc.get("group") == "late":
         from vf import c09_extra
         return c09_extra.run_late(desc)
+    if desc.get("group") in ("c09rep", "c09abort"):
+        from vf import c09_extra
+        return c09_extra.run_delegated(desc)
     from xitorch.optimize import rootfinder, equilibrium, minimize
     obs = Obs(desc)
     task, method, family = desc["task"], desc["method"], desc["family"]
